@@ -127,7 +127,7 @@ CHECKS = {
         technique="Rocq refinement proof over all histories + correspondence with real files/streams (vm_compute) + oracle",
         ref="§C14"),
     "C17": dict(
-        text="Theorems C17_conservation and C17_lines_are_cut (coq/props/C17.v) hold for every byte stream, every "
+        text="Theorems C17_conservation, C17_lines_are_cut and its corollary C17_fragmentation_independent (two fragmentations of one stream give the same lines) (coq/props/C17.v) hold for every byte stream, every "
              "fragmentation into chunks of any size, every placement of read timeouts, after every number of "
              "readline() calls, by induction over the call sequence and the read loop; the model "
              "(coq/model/LineBuf.v) is compared with the real Device.readline() on generated scripts on every "
